@@ -2696,6 +2696,301 @@ theorem wfb_flatten {t : RawTree} (hwf : wfb t = true) {ll : Level} (hleaf : t.l
     decide_eq_true_eq]
   refine ⟨by simp [hasDup], ⟨fun c hc => by simpa using hc, fun c hc => by simpa using hc⟩⟩
 
+/-! ### `drop_level` of a well-formed tree gives a well-formed tree -/
+
+theorem children_of_mem_level {t : RawTree} {pl : Level} (hk : (t.nodesAt pl).Nodup)
+    {p : Node} {cs : List Nat} (hm : (p, cs) ∈ t.level pl) : t.children (some (pl, p)) = .ok cs := by
+  have hlook : (t.level pl).lookup p = some cs := lookup_of_mem_nodup _ p cs hk hm
+  have hp : p ∈ t.nodesAt pl := List.mem_map.mpr ⟨(p, cs), hm, rfl⟩
+  have hlev : (t.levels.map (·.1)).contains pl = true := by
+    cases hl : t.levels.lookup pl with
+    | none => simp [RawTree.level, hl] at hm
+    | some m =>
+      have := mem_of_lookup _ _ _ hl
+      exact List.contains_iff_mem.mpr (List.mem_map.mpr ⟨(pl, m), this, rfl⟩)
+  have hp' : (t.nodesAt pl).contains p = true := List.contains_iff_mem.mpr hp
+  simp only [RawTree.children, hlev, hp', RawTree.entry, hlook, Bool.not_true,
+    Bool.false_eq_true, if_false, Option.getD_some]
+
+/-- converse of `levelOK_facts` -/
+theorem levelOK_of_facts (t : RawTree) (pl : Option Level) (cl : Level)
+    (hnd : (t.nodesAt cl).Nodup)
+    (hkids : ∀ p ∈ parentNodeList t pl, ∃ kids, t.children p = .ok kids ∧ kids ≠ [] ∧
+      ∀ c ∈ kids, c ∈ t.nodesAt cl)
+    (hdisj : ∀ p ∈ parentNodeList t pl, ∀ p' ∈ parentNodeList t pl, p ≠ p' →
+      ∀ c, c ∈ kidsD t p → c ∉ kidsD t p')
+    (hsurj : ∀ c ∈ t.nodesAt cl, ∃ p ∈ parentNodeList t pl, c ∈ kidsD t p) :
+    levelOK t pl cl = true := by
+  simp only [levelOK, Bool.and_eq_true, List.all_eq_true, Bool.not_eq_true',
+    Bool.or_eq_true, beq_iff_eq, List.any_eq_true, List.contains_iff_mem]
+  refine ⟨⟨nodup_hasDup_false _ hnd, hsurj⟩, ?_⟩
+  intro p hp
+  obtain ⟨kids, hk, hne, hsub⟩ := hkids p hp
+  refine ⟨?_, ?_⟩
+  · rw [hk]
+    simp only [Bool.and_eq_true, Bool.not_eq_true', List.all_eq_true, List.contains_iff_mem]
+    refine ⟨?_, hsub⟩
+    cases kids with
+    | nil => exact absurd rfl hne
+    | cons a b => rfl
+  · intro p' hp'
+    by_cases he : p = p'
+    · exact Or.inl he
+    · right
+      simp only [disjointB, List.all_eq_true, Bool.not_eq_true']
+      intro c hc
+      have := hdisj p hp p' hp' he c hc
+      simpa using this
+
+/-- pairs of `levelPairs`, in split form -/
+theorem mem_levelPairs_iff (t : RawTree) (plo : Option Level) (c : Level) :
+    (plo, c) ∈ levelPairs t ↔
+      (plo = none ∧ t.hierarchy.head? = some c) ∨
+      ∃ p a b, plo = some p ∧ t.hierarchy = a ++ p :: c :: b := by
+  unfold levelPairs
+  generalize t.hierarchy = h
+  cases h with
+  | nil => simp
+  | cons x xs =>
+    simp only [List.map_cons, List.zip_cons_cons, List.mem_cons, Prod.mk.injEq, List.head?_cons,
+      Option.some.injEq]
+    constructor
+    · rintro (⟨rfl, rfl⟩ | hm)
+      · exact Or.inl ⟨rfl, rfl⟩
+      · right
+        -- hm : (plo, c) ∈ (some x :: xs.map some).zip xs
+        clear t
+        induction xs generalizing x with
+        | nil => simp at hm
+        | cons y ys ih =>
+          simp only [List.map_cons, List.zip_cons_cons, List.mem_cons, Prod.mk.injEq] at hm
+          rcases hm with ⟨rfl, rfl⟩ | hm
+          · exact ⟨x, [], ys, rfl, rfl⟩
+          · obtain ⟨p, a, b, hp, hs⟩ := ih y hm
+            exact ⟨p, x :: a, b, hp, by rw [hs]; rfl⟩
+    · rintro (⟨rfl, h⟩ | ⟨p, a, b, rfl, hs⟩)
+      · exact Or.inl ⟨rfl, h.symm⟩
+      · right
+        clear t
+        induction a generalizing x xs with
+        | nil =>
+          simp only [List.nil_append, List.cons.injEq] at hs
+          obtain ⟨rfl, rfl⟩ := hs
+          simp
+        | cons a0 a ih =>
+          simp only [List.cons_append, List.cons.injEq] at hs
+          obtain ⟨rfl, rfl⟩ := hs
+          cases a with
+          | nil => simp
+          | cons a1 a' =>
+            simp only [List.cons_append, List.map_cons, List.zip_cons_cons, List.mem_cons]
+            right
+            have := ih a1 (a' ++ p :: c :: b) rfl
+            simpa using this
+
+theorem facts_kidsD {t : RawTree} {p c : Level} (facts : LevelFacts t (some p) c) {n : Node}
+    (hn : n ∈ t.nodesAt p) :
+    kidsD t (some (p, n)) ≠ [] ∧ ∀ c' ∈ kidsD t (some (p, n)), c' ∈ t.nodesAt c := by
+  obtain ⟨kids, hk, hne, hsub⟩ := facts.kids (some (p, n))
+    ((mem_parentNodeList_some t p _).mpr ⟨n, hn, rfl⟩)
+  rw [kidsD_of_ok hk]
+  refine ⟨hne, ?_⟩
+  intro c' hc'
+  obtain ⟨k, hk', he⟩ := (mem_parentNodeList_some t c _).mp (hsub c' hc')
+  cases he; exact hk'
+
+theorem facts_of_split {t : RawTree} (hwf : wfb t = true) {a b : List Level} {p c : Level}
+    (hs : t.hierarchy = a ++ p :: c :: b) : LevelFacts t (some p) c := by
+  have hpair : (some p, c) ∈ levelPairs t := by
+    unfold levelPairs; rw [hs]; exact mem_zip_of_split p c b a none
+  exact levelOK_facts t (some p) c (wfb_levelOK hwf hpair)
+
+theorem wfb_dropLevel {t t' : RawTree} {l cl : Level} {pre post : List Level}
+    (hwf : wfb t = true) (h : t.dropLevel l = .ok t')
+    (hs : t.hierarchy = pre ++ l :: cl :: post) : wfb t' = true := by
+  have hnd := wfb_nodup_hierarchy hwf
+  obtain ⟨_, hh'⟩ := dropLevel_hierarchy h
+  have hl_pre : l ∉ pre := by
+    intro hm
+    rw [hs] at hnd
+    exact (List.nodup_append.mp hnd).2.2 l hm l (by simp) rfl
+  have hh'' : t'.hierarchy = pre ++ cl :: post := by
+    rw [hh', hs, List.erase_append_right _ hl_pre, List.erase_cons_head]
+  have hnd' : t'.hierarchy.Nodup := by rw [hh']; exact hnd.erase l
+  have hmem0 : ∀ x, x ∈ t'.hierarchy → x ≠ l ∧ x ∈ t.hierarchy := by
+    intro x hx; rw [hh'] at hx; exact hnd.mem_erase_iff.mp hx
+  have hnodes : ∀ x, x ≠ l → t'.nodesAt x = t.nodesAt x := fun x hx => drop_nodesAt h hs hnd hx
+  obtain ⟨hlev1, hlev2⟩ := dropLevel_level h hs hnd
+  simp only [wfb, Bool.and_eq_true, Bool.not_eq_true', List.all_eq_true]
+  refine ⟨nodup_hasDup_false _ hnd', ?_⟩
+  rintro ⟨plo, c⟩ hm
+  simp only
+  have hc_in : c ∈ t'.hierarchy := by
+    have : (plo, c) ∈ (none :: t'.hierarchy.map some).zip t'.hierarchy := hm
+    exact (List.of_mem_zip this).2
+  obtain ⟨hc_ne, hc_h⟩ := hmem0 c hc_in
+  have hkc : (t'.nodesAt c).Nodup := by rw [hnodes c hc_ne]; exact wfb_nodup_nodesAt hwf hc_h
+  rcases (mem_levelPairs_iff t' plo c).mp hm with ⟨rfl, hhead⟩ | ⟨p, a, b, rfl, hsplit'⟩
+  · -- the root
+    have hch : t'.children none = .ok (t'.nodesAt c) := by
+      simp only [RawTree.children, hhead]
+    have hkD : kidsD t' none = t'.nodesAt c := by simp [kidsD, hch]
+    apply levelOK_of_facts t' none c hkc
+    · intro p hp
+      simp only [parentNodeList, List.mem_singleton] at hp
+      subst hp
+      refine ⟨_, hch, ?_, fun _ h => h⟩
+      rw [hnodes c hc_ne]; exact wfb_nodesAt_nonempty hwf hc_h
+    · intro p hp p' hp' hne
+      simp only [parentNodeList, List.mem_singleton] at hp hp'
+      exact absurd (hp.trans hp'.symm) hne
+    · intro c' hc'
+      exact ⟨none, by simp [parentNodeList], by rw [hkD]; exact hc'⟩
+  · have hp_in : p ∈ t'.hierarchy := by rw [hsplit']; simp
+    obtain ⟨hp_ne, hp_h⟩ := hmem0 p hp_in
+    have hkp := wfb_nodup_nodesAt hwf hp_h
+    have hkp' : (t'.nodesAt p).Nodup := by rw [hnodes p hp_ne]; exact hkp
+    have hpl : ∀ q, q ∈ parentNodeList t' (some p) ↔ ∃ n, n ∈ t.nodesAt p ∧ q = some (p, n) := by
+      intro q; rw [mem_parentNodeList_some, hnodes p hp_ne]
+    by_cases hlast : pre.getLast? = some p
+    · -- the level above the dropped one: children = grand-children
+      obtain ⟨pre', hpre'⟩ := List.getLast?_eq_some_iff.mp hlast
+      have hs1 : t.hierarchy = pre' ++ p :: l :: (cl :: post) := by rw [hs, hpre']; simp
+      have hccl : c = cl := by
+        have e1 : t'.hierarchy = pre' ++ p :: (cl :: post) := by rw [hh'', hpre']; simp
+        have e2 : t'.hierarchy = a ++ p :: (c :: b) := hsplit'
+        obtain ⟨_, hb⟩ := split_unique a pre' p (c :: b) (cl :: post)
+          (by rw [← e2]; exact hnd') (by rw [← e2, e1])
+        cases hb; rfl
+      subst hccl
+      have f1 := facts_of_split hwf hs1
+      have f2 := facts_of_split hwf hs
+      have hl_h : l ∈ t.hierarchy := by rw [hs]; simp
+      have hkl := wfb_nodup_nodesAt hwf hl_h
+      have hkids' : ∀ n, n ∈ t.nodesAt p →
+          t'.children (some (p, n)) = .ok ((kidsD t (some (p, n))).flatMap (fun m => t.entry l m)) ∧
+          kidsD t' (some (p, n)) = (kidsD t (some (p, n))).flatMap (fun m => t.entry l m) := by
+        intro n hn
+        obtain ⟨⟨n0, cs⟩, hmem, he⟩ := List.mem_map.mp hn
+        simp only at he; subst he
+        have hmem' : (n0, cs.flatMap (fun m => t.entry l m)) ∈ t'.level p := by
+          rw [hlev2 p hlast]; exact List.mem_map.mpr ⟨(n0, cs), hmem, rfl⟩
+        rw [kidsD_of_mem_level hkp hmem]
+        exact ⟨children_of_mem_level hkp' hmem', kidsD_of_mem_level hkp' hmem'⟩
+      have hentry : ∀ m, m ∈ t.nodesAt l → t.entry l m = kidsD t (some (l, m)) :=
+        fun m hm' => (kidsD_eq_entry hkl hm').symm
+      apply levelOK_of_facts t' (some p) c hkc
+      · intro q hq
+        obtain ⟨n, hn, rfl⟩ := (hpl q).mp hq
+        obtain ⟨hch, _⟩ := hkids' n hn
+        obtain ⟨hne1, hsub1⟩ := facts_kidsD f1 hn
+        refine ⟨_, hch, ?_, ?_⟩
+        · cases hk0 : kidsD t (some (p, n)) with
+          | nil => exact absurd hk0 hne1
+          | cons m ms =>
+            have hm' : m ∈ t.nodesAt l := hsub1 m (by rw [hk0]; simp)
+            obtain ⟨hne2, _⟩ := facts_kidsD f2 hm'
+            intro hnil
+            have : t.entry l m = [] := by
+              have := List.flatMap_eq_nil_iff.mp hnil m (by simp)
+              exact this
+            rw [hentry m hm'] at this
+            exact hne2 this
+        · intro c' hc'
+          obtain ⟨m, hm1, hm2⟩ := List.mem_flatMap.mp hc'
+          have hm' : m ∈ t.nodesAt l := hsub1 m hm1
+          rw [hentry m hm'] at hm2
+          rw [hnodes c hc_ne]
+          exact (facts_kidsD f2 hm').2 c' hm2
+      · intro q hq q' hq' hne c' hc1 hc2
+        obtain ⟨n, hn, rfl⟩ := (hpl q).mp hq
+        obtain ⟨n', hn', rfl⟩ := (hpl q').mp hq'
+        rw [(hkids' n hn).2] at hc1
+        rw [(hkids' n' hn').2] at hc2
+        obtain ⟨m, hm1, hm2⟩ := List.mem_flatMap.mp hc1
+        obtain ⟨m', hm1', hm2'⟩ := List.mem_flatMap.mp hc2
+        have hmn : m ∈ t.nodesAt l := (facts_kidsD f1 hn).2 m hm1
+        have hmn' : m' ∈ t.nodesAt l := (facts_kidsD f1 hn').2 m' hm1'
+        rw [hentry m hmn] at hm2
+        rw [hentry m' hmn'] at hm2'
+        have hmm : m = m' := by
+          by_cases he : m = m'
+          · exact he
+          · exact absurd hm2' (f2.disj _ ((mem_parentNodeList_some t l _).mpr ⟨m, hmn, rfl⟩) _
+              ((mem_parentNodeList_some t l _).mpr ⟨m', hmn', rfl⟩)
+              (by intro h; cases h; exact he rfl) c' hm2)
+        subst hmm
+        have hnn : n ≠ n' := fun he => hne (by rw [he])
+        exact f1.disj _ ((mem_parentNodeList_some t p _).mpr ⟨n, hn, rfl⟩) _
+          ((mem_parentNodeList_some t p _).mpr ⟨n', hn', rfl⟩)
+          (by intro h; cases h; exact hnn rfl) m hm1 hm1'
+      · intro c' hc'
+        rw [hnodes c hc_ne] at hc'
+        obtain ⟨q, hq, hcq⟩ := f2.surj c' hc'
+        obtain ⟨m, hm', rfl⟩ := (mem_parentNodeList_some t l q).mp hq
+        obtain ⟨q2, hq2, hmq⟩ := f1.surj m hm'
+        obtain ⟨n, hn, rfl⟩ := (mem_parentNodeList_some t p q2).mp hq2
+        refine ⟨some (p, n), (hpl _).mpr ⟨n, hn, rfl⟩, ?_⟩
+        rw [(hkids' n hn).2]
+        exact List.mem_flatMap.mpr ⟨m, hmq, by rw [hentry m hm']; exact hcq⟩
+    · -- a pair that is also consecutive in the stored tree
+      have hsplit0 : ∃ a0 b0, t.hierarchy = a0 ++ p :: c :: b0 := by
+        have e : a ++ (p :: c :: b) = pre ++ (cl :: post) := by rw [← hsplit', hh'']
+        rcases List.append_eq_append_iff.mp e with ⟨a', hpre, hrest⟩ | ⟨c', ha, hrest⟩
+        · cases a' with
+          | nil =>
+            simp only [List.nil_append, List.cons.injEq] at hrest
+            obtain ⟨rfl, rfl⟩ := hrest
+            exact ⟨pre ++ [l], b, by rw [hs]; simp⟩
+          | cons x a'' =>
+            simp only [List.cons_append, List.cons.injEq] at hrest
+            obtain ⟨rfl, hrest⟩ := hrest
+            cases a'' with
+            | nil =>
+              exfalso; apply hlast
+              rw [hpre]; simp
+            | cons y a3 =>
+              simp only [List.cons_append, List.cons.injEq] at hrest
+              obtain ⟨rfl, hb⟩ := hrest
+              exact ⟨a, a3 ++ l :: cl :: post, by rw [hs, hpre]; simp⟩
+        · cases c' with
+          | nil =>
+            simp only [List.nil_append, List.cons.injEq] at hrest
+            obtain ⟨rfl, rfl⟩ := hrest
+            exact ⟨pre ++ [l], b, by rw [hs]; simp⟩
+          | cons x c'' =>
+            simp only [List.cons_append, List.cons.injEq] at hrest
+            obtain ⟨rfl, hpost⟩ := hrest
+            exact ⟨pre ++ l :: cl :: c'', b, by rw [hs, hpost]; simp⟩
+      obtain ⟨a0, b0, hs0⟩ := hsplit0
+      have f := facts_of_split hwf hs0
+      have hkids' : ∀ n, n ∈ t.nodesAt p →
+          t'.children (some (p, n)) = .ok (kidsD t (some (p, n))) ∧
+          kidsD t' (some (p, n)) = kidsD t (some (p, n)) := by
+        intro n hn
+        obtain ⟨⟨n0, cs⟩, hmem, he⟩ := List.mem_map.mp hn
+        simp only at he; subst he
+        have hmem' : (n0, cs) ∈ t'.level p := by rw [hlev1 p hp_ne hlast]; exact hmem
+        rw [kidsD_of_mem_level hkp hmem]
+        exact ⟨children_of_mem_level hkp' hmem', kidsD_of_mem_level hkp' hmem'⟩
+      apply levelOK_of_facts t' (some p) c hkc
+      · intro q hq
+        obtain ⟨n, hn, rfl⟩ := (hpl q).mp hq
+        obtain ⟨hne1, hsub1⟩ := facts_kidsD f hn
+        exact ⟨_, (hkids' n hn).1, hne1, fun c' hc' => by rw [hnodes c hc_ne]; exact hsub1 c' hc'⟩
+      · intro q hq q' hq' hne c' hc1 hc2
+        obtain ⟨n, hn, rfl⟩ := (hpl q).mp hq
+        obtain ⟨n', hn', rfl⟩ := (hpl q').mp hq'
+        rw [(hkids' n hn).2] at hc1
+        rw [(hkids' n' hn').2] at hc2
+        exact f.disj _ ((mem_parentNodeList_some t p _).mpr ⟨n, hn, rfl⟩) _
+          ((mem_parentNodeList_some t p _).mpr ⟨n', hn', rfl⟩) hne c' hc1 hc2
+      · intro c' hc'
+        rw [hnodes c hc_ne] at hc'
+        obtain ⟨q, hq, hcq⟩ := f.surj c' hc'
+        obtain ⟨n, hn, rfl⟩ := (mem_parentNodeList_some t p q).mp hq
+        exact ⟨some (p, n), (hpl _).mpr ⟨n, hn, rfl⟩, by rw [(hkids' n hn).2]; exact hcq⟩
+
 /-! ### a concrete instance for the non-vacuity examples of `Props/C01, C06, C17` -/
 
 /-! a 3-level taxonomy with a single top node (10), a single-child parent (20)
